@@ -16,7 +16,7 @@ import subprocess
 import sys
 
 VERIF = os.path.dirname(os.path.dirname(os.path.abspath(__file__)))
-WT = "/tmp/wt-confirm"
+WT = os.environ.get("SEED_WT", "/tmp/wt-confirm")      # scratch worktree of /repo used by confirm
 SEEDED = os.path.join(VERIF, "seeded")
 ENV = dict(os.environ, OMPI_ALLOW_RUN_AS_ROOT="1", OMPI_ALLOW_RUN_AS_ROOT_CONFIRM="1")
 
@@ -57,7 +57,7 @@ def confirm(srcdir, sid, prop):
         return 1
     touched = sh("git -C %s diff --stat -- include | head -20" % WT).stdout
     outside = sh("git -C %s status --short | grep -v '^ M include/' | grep -v '_build' " % WT).stdout.strip()
-    r = sh("cmake --build %s/_build -j16 2>&1 | tail -3" % WT)
+    r = sh("cmake --build %s/_build -j%s 2>&1 | tail -3" % (WT, os.environ.get("SEED_JOBS", "16")))
     built = "FAILED" not in r.stdout and "error" not in r.stdout.lower()
     t = sh("ctest --test-dir %s/_build -j8 --timeout 900 2>&1 | tail -4" % WT)
     m = re.search(r"(\d+)% tests passed, (\d+) tests failed out of (\d+)", t.stdout)
@@ -91,13 +91,19 @@ def confirm(srcdir, sid, prop):
     dst = os.path.join(SEEDED, sid)
     os.makedirs(dst, exist_ok=True)
     for f in ("patch.diff", "demo.cpp", "notes.md"):
-        if os.path.exists(os.path.join(srcdir, f)):
+        if os.path.exists(os.path.join(srcdir, f)) and os.path.abspath(srcdir) != os.path.abspath(dst):
             shutil.copy(os.path.join(srcdir, f), os.path.join(dst, f))
     meta = dict(id=sid, property=prop, files_touched=touched.strip().splitlines(), tests="78/78 pass with the change applied (scratch worktree)",
                 demo=dict(mode=verdict, flags="-std=c++17 " + ("-DNDEBUG" if verdict == "NDEBUG" else "(assertions enabled)"),
                           original=results["orig,%s" % verdict], changed=results["changed,%s" % verdict]),
                 origin="fresh sub-agent given only the property text and its own scratch worktree", detection={})
-    with open(os.path.join(dst, "meta.json"), "w") as fh:
+    mp = os.path.join(dst, "meta.json")
+    if os.path.exists(mp):          # keep detection records written earlier (tools/seedsweep.py --record)
+        oldm = json.load(open(mp))
+        for k in ("detection", "caught_by", "caught_by_own_property_check", "also"):
+            if k in oldm and oldm[k]:
+                meta[k] = oldm[k]
+    with open(mp, "w") as fh:
         json.dump(meta, fh, indent=1)
     return 0
 
